@@ -257,6 +257,15 @@ func Check(env *core.Env, rep *core.Report) *core.Result {
 			_ = ioutil.WriteFile(filepath.Join(root, "b", "a"), []byte("x"), 0o644)
 			paths = []string{"a", "b", "b/a"}
 			inc = []string{"**/**/**/a"}
+		} else if i == 2 {
+			// alternatives in braces (doublestar syntax outside Glob.tla's alphabet): judged with the
+			// library's own PathMatch below
+			_ = os.MkdirAll(filepath.Join(root, "d"), 0o755)
+			for _, f := range []string{"a", "b", "ab", "d/a", "d/b"} {
+				_ = ioutil.WriteFile(filepath.Join(root, f), []byte("x"), 0o644)
+			}
+			paths = []string{"a", "ab", "b", "d", "d/a", "d/b"}
+			inc = []string{"{a,ab}", "d/{b,zz}"}
 		} else {
 			paths = randTree(r, root)
 			for k := 0; k < 1+r.Intn(2); k++ {
@@ -313,6 +322,26 @@ func Check(env *core.Env, rep *core.Report) *core.Result {
 				add("select:observes-unknown-path", fmt.Sprintf("the watcher waits on %q which is not in the tree", q), map[string]interface{}{"include": inc, "exclude": exc, "paths": paths})
 			}
 		}
+		if i == 2 {
+			var want, got []string
+			for _, q := range paths {
+				for _, pat := range inc {
+					if m, _ := doublestar.PathMatch(pat, q); m {
+						want = append(want, q)
+						break
+					}
+				}
+			}
+			for _, k := range obs {
+				got = append(got, paths[k-1])
+			}
+			sort.Strings(got)
+			sort.Strings(want)
+			if strings.Join(got, ",") != strings.Join(want, ",") {
+				add("select:brace-alternatives", fmt.Sprintf("watch: %v over %v: the watcher waits on %v, the patterns select %v", inc, paths, got, want), map[string]interface{}{"include": inc, "paths": paths})
+			}
+			return
+		}
 		var is, es [][][]string
 		for _, q := range inc {
 			is = append(is, segs(q))
@@ -363,6 +392,8 @@ func Check(env *core.Env, rep *core.Report) *core.Result {
 		var listed []string
 		if i == 0 {
 			listed = []string{"write"}
+		} else if i == 3 {
+			listed = nil // every event type: the overrunning task certainly runs
 		} else if r.Intn(4) != 0 {
 			for _, t := range allTypes {
 				if r.Intn(2) == 0 {
@@ -387,7 +418,13 @@ func Check(env *core.Env, rep *core.Report) *core.Result {
 		if withVars {
 			vv, varDef = "$VV", "    variations:\n      - {VV: a}\n      - {VV: b}\n"
 		}
-		fmt.Fprintf(&y, "tasks:\n  t:\n%s    command: ['%s/bin/echo \"RUN%s $EventName $EventPath\" >> %s']\n", varDef, pre, vv, logf)
+		if i == 3 {
+			// the task has a timeout and overruns it whenever it runs for an event: the watcher keeps
+			// serving later events all the same (KeepsServing probe below)
+			fmt.Fprintf(&y, "tasks:\n  t:\n    timeout: 1s\n    command: ['/bin/echo \"RUN $EventName $EventPath\" >> %s; [ -z \"$EventName\" ] || sleep 3']\n", logf)
+		} else {
+			fmt.Fprintf(&y, "tasks:\n  t:\n%s    command: ['%s/bin/echo \"RUN%s $EventName $EventPath\" >> %s']\n", varDef, pre, vv, logf)
+		}
 		fmt.Fprintf(&y, "  t2:\n    command: ['/bin/echo \"RUN2 $EventName $EventPath\" >> %s']\n", logf2)
 		// scenario 2 also selects the directory d itself: events on its direct entries are reported
 		// through it, but a directory created inside it later is NOT selected by any pattern
